@@ -107,6 +107,23 @@ def main(replay=None):
             for i, o in zip(slow, ex.map(one, slow)):
                 model[i] = o[0] if o else "MODEL-TIMEOUT"
 
+    # one VM, several texts: a text preprocessed after another one (the same, or a decoy that defines macros of common names) must
+    # come out exactly as in a fresh VM - no definition, expansion or file content is remembered from one preprocess call to the next
+    again = [i for i in range(len(cases)) if not impl[i].startswith(("TIMEOUT", "CRASH", "OOM")) and (i % 5 == 0 or cases[i]["kind"] in ("corpus", "recursive"))]
+    relines = [("PP2" if k % 2 == 0 else "PPX") + lines[i][2:] for k, i in enumerate(again)]
+    rc3, reimpl, err3 = V.run_lines_parallel([himpl], relines, timeout=3000)
+    n_again = 0
+    for i, rl, ri in zip(again, relines, reimpl):
+        if "__COUNTER__" in "".join(v.decode("latin-1") for v in cases[i]["files"].values()):
+            continue
+        n_again += 1
+        if ri != impl[i]:
+            c = cases[i]
+            run.violation("a text preprocessed after another text in the same VM (%s) comes out differently from the same text in a fresh VM" %
+                          ("the same text" if rl.startswith("PP2") else "a text defining macros named FOO, T_, A, M1, e"),
+                          {"kind": "again:" + rl[:3], "main": c["main"], "files_hex": {k: V.hx(v) for k, v in c["files"].items()},
+                           "files_text": {k: v.decode("latin-1") for k, v in c["files"].items()}, "fresh": impl[i][:3000], "after": ri[:3000]})
+
     kinds, feats, samples, distinct = {}, {}, [], set()
     stats = {"model_error_outcomes": 0, "discarded_outside_grammar": 0, "newline_rule_as_is": 0, "model_overflow": 0, "expansion_too_large": 0}
     for c, il, ml in zip(cases, impl, model):
@@ -195,6 +212,7 @@ def main(replay=None):
                        "silent cases and a small recursive-macro stream; compared byte for byte (including '#line' texts) with the extracted "
                        "reference expander; the number of newlines answering a continued line is C14's business (either rule accepted); "
                        "non-trivial = the reference produces output and the case uses at least one grammar feature; distinct by file contents")
+    run.cov["preprocessed_again_in_a_used_vm"] = n_again
     run.cov["input_distribution"] = kinds
     run.cov["grammar_features"] = feats
     run.cov["samples"] = samples
